@@ -196,10 +196,16 @@ func (y *Yaml) GetMapKeys() ([]string, error) {
 	if err != nil {
 		return nil, err
 	}
-	keys := make([]string, 0)
-	for k := range m {
-		keys = append(keys, k)
-
+	// keys are returned in document order (ranging over the map would make the order, and with it
+	// the names given to generated variables, change from run to run)
+	keys := make([]string, 0, len(m))
+	seen := make(map[string]bool, len(m))
+	for i := 0; i < len(y.data.Content); i += 2 {
+		k := y.data.Content[i].Value
+		if !seen[k] {
+			seen[k] = true
+			keys = append(keys, k)
+		}
 	}
 	return keys, nil
 }
